@@ -2,7 +2,7 @@
 (vt.monitors_tedmd) per index-set pair + driver clause batch == single (element-wise) + M3 on every returned TT."""
 import numpy as np
 
-from .. import probe, monitors_tedmd, monitors_transform, monitors_basis
+from .. import gen, probe, monitors_tedmd, monitors_transform, monitors_basis
 from ..dense import dense_b, tt_consistent
 from ..drive import call
 from ..shard import Workload
@@ -24,7 +24,7 @@ def setup(ctx):
 
 def data(rng):
     d, m = int(rng.integers(1, 4)), int(rng.integers(3, 10))
-    Z = rng.uniform(-1.5, 1.5, size=(d, m))
+    Z = gen.data_matrix(rng, (d, m))
     if rng.random() < 0.3:  # a trajectory of a contracting linear map: slowly varying snapshots
         A = 0.9 * np.linalg.qr(rng.standard_normal((d, d)))[0]
         Z = np.stack([np.linalg.matrix_power(A, k) @ Z[:, 0] for k in range(m)], axis=1)
@@ -32,6 +32,14 @@ def data(rng):
     while len(bl) < 2:
         bl = c15.rand_basis(rng, d)
     return d, m, Z, bl
+
+
+def admissible(ctx, Z, bl, pairs):
+    """the transformed data tensor (and its restriction to every x-index set) must not vanish identically: relative cuts are 0/0"""
+    if monitors_transform.data_tensor_class(Z, bl) == 'zero' or any(monitors_transform.data_tensor_class(Z, bl, cols=a) == 'zero' for (a, b) in pairs):
+        ctx.skip('amuset_data_tensor_zero')
+        return False
+    return True
 
 
 def index_sets(rng, m):
@@ -72,6 +80,8 @@ def w_hosvd(ctx, rng, idx):
             pairs[k] = pairs[k - 1]
         else:
             pairs[k] = (pairs[k - 1][1], pairs[k - 1][0])
+    if not admissible(ctx, Z, bl, pairs):
+        return
     xs, ys = [p[0] for p in pairs], [p[1] for p in pairs]
     ctx.describe({'op': 'amuset_hosvd', 'd': d, 'm': m, 'modes': [[type(f).__name__ for f in fl] for fl in bl], 'threshold': thr, 'pairs': [[list(map(int, a)), list(map(int, b))] for a, b in pairs]})
     okb, rb = call('tedmd.amuset_hosvd', te.amuset_hosvd, Z, xs, ys, bl, prop=P, tags=['batch'], refusals=(np.linalg.LinAlgError,), threshold=thr)
@@ -102,17 +112,20 @@ def w_hocur(ctx, rng, idx):
     d, m, Z, bl = data(rng)
     npairs = int(rng.integers(1, 3))
     pairs = [index_sets(rng, m) for _ in range(npairs)]
+    if not admissible(ctx, Z, bl, pairs) or monitors_transform.data_tensor_class(Z, bl) != 'regular':
+        ctx.skip('amuset_hocur_data_tensor_without_spectral_gap')
+        return
     xs, ys = [p[0] for p in pairs], [p[1] for p in pairs]
     ctx.describe({'op': 'amuset_hocur', 'd': d, 'm': m, 'modes': [[type(f).__name__ for f in fl] for fl in bl], 'pairs': npairs})
     mult = int(rng.integers(4, 11))
     okb, rb = call('tedmd.amuset_hocur', te.amuset_hocur, Z, xs if npairs > 1 else xs[0], ys if npairs > 1 else ys[0], bl, prop=P, tags=['batch' if npairs > 1 else 'single'],
-                   refusals=(np.linalg.LinAlgError,), multiplier=mult)
+                   refusals=(np.linalg.LinAlgError,), refusal_pred=monitors_transform.hocur_gave_up_on_zero_block, multiplier=mult)
     if okb and npairs > 1:
         ctx.check('tedmd.amuset_hocur', 'batch_results_are_distinct_objects', len(set(id(t) for t in rb[1])) == npairs, [], {'pairs': npairs}, prop=P)
         # batch == single calls (the cross approximation starts from a deterministic column choice, so both runs are comparable)
         good, bad = True, None
         for k in range(npairs):
-            oks, rs = call('tedmd.amuset_hocur', te.amuset_hocur, Z, xs[k], ys[k], bl, prop=P, tags=['single'], refusals=(np.linalg.LinAlgError,), multiplier=mult)
+            oks, rs = call('tedmd.amuset_hocur', te.amuset_hocur, Z, xs[k], ys[k], bl, prop=P, tags=['single'], refusals=(np.linalg.LinAlgError,), refusal_pred=monitors_transform.hocur_gave_up_on_zero_block, multiplier=mult)
             if not oks:
                 good = None
                 break
